@@ -137,3 +137,6 @@ def check(facts, rep, tier, cfg):
         for v in sub.violations:
             if rule_sel(v["rule"], v["key"]):
                 rep.bad("C11.R3", pref + v["key"].split("/", 1)[1], v["where"], v["msg"])
+
+    rep.rule("C11.R4", "the datagram receive buffer is a bounded queue whose capacity is the configured datagram_buffer_size")
+    check_capacity_role(facts, rep, crate, "C11.R4", "Datagram", "Options.datagram_buffer_size", "datagram receive buffer")
